@@ -1,5 +1,9 @@
 """C07 — eager scheduler wastes no cycle."""
+import random
+
+from ..coregen.gen import generate_cond
 from ..coregen.prop import CoreProp
+from ..kernel import h64
 
 
 class Prop(CoreProp):
@@ -9,7 +13,16 @@ class Prop(CoreProp):
     tiers = {"quick": {"runs": 400, "selftest_runs": 4}, "thorough": {"runs": 8000, "selftest_runs": 32}}
     feat = {'n_conflicts': (0, 2), 'prio': True, 'n_before': (0, 2), 'no_amb': True, 'p_nonex': 0.3, 'p_wrap': 0.4, 'p_self_conflict_excl': 0.3}
     rule = 'one run = one generated program (1-3 modules, 1-5 transactions, 0-6 methods, call depth <= 3, nested bodies, If/Switch/FSM around bodies and calls, enable_call, validate_arguments, aliases, nonexclusive methods, add_conflict and schedule_before relations; no AMBIGUOUS pairs) under one arbiter and one internal set order, driven for 60-160 cycles by a seeded phase plan (random / all-on contention / single-method stall / flapping / exhaustive valuation sweep when <= 10 one-bit inputs); distinct = distinct (program, arbiter, set of transactions running in a cycle); non-trivial = at least one transaction ran'
-    expected_cov = ['blocked_by_conflict', 'sharing_transactions_run_together', 'concurrent_transactions']
+    expected_cov = ['blocked_by_conflict', 'sharing_transactions_run_together', 'concurrent_transactions', 'cond_design_transaction_ran',
+                    'cond_design_enabled_transaction_blocked_by_condition']
+
+    def gen_config(self, rng, tier, idx):
+        cfg = super().gen_config(rng, tier, idx)
+        if idx % 6 == 5:  # designs with condition(): callers of the enclosing body must not be starved (narrower premise, see scen)
+            prng = random.Random(h64(self.master_seed, self.ID, "cond-program", idx))
+            cfg["prog"] = generate_cond(prng)
+            cfg["sched"] = "eager"
+        return cfg
 
 
 PROP = Prop()
